@@ -26,6 +26,7 @@ type c06Case struct {
 	Schedule []int      `json:"schedule,omitempty"` // replay: exactly this choice sequence
 	MaxExec  int        `json:"max_exec,omitempty"`
 	NoFile   bool       `json:"nofile,omitempty"` // the shared snapshot file does not exist yet (first run of a package): creating calls only
+	APIs     []string   `json:"apis,omitempty"`   // per thread: the entry point of its multi-entry calls: "" = MatchSnapshot | yaml (same stored text)
 }
 
 var c06Digits = regexp.MustCompile(`[0-9]+`)
@@ -187,6 +188,8 @@ func c06Build(c *vfCtx, cs c06Case, n int) (*c06World, []func()) {
 					shared["sa"+upd].MatchStandaloneJSON(t, `"`+val+`"`)
 				case strings.HasPrefix(kind, "sa-"):
 					shared["sa"+upd].MatchStandaloneSnapshot(t, val)
+				case ti < len(cs.APIs) && cs.APIs[ti] == "yaml":
+					shared[upd].MatchYAML(t, val) // (the values are plain YAML scalars: stored as they are)
 				default:
 					shared[upd].MatchSnapshot(t, val)
 				}
@@ -514,6 +517,17 @@ func c06Gen(c *vfCtx, emit func(c06Case)) {
 			scen([][]string{{k}, {"update-shrink"}}, 2)
 		}
 		scen([][]string{{"update-shrink"}, {"update-shrink"}}, 2)
+		// the same kinds of calls made through the other entry points that share the multi-entry file (one thread, or both)
+		for _, a := range kindsets(2, c06Kinds) {
+			for _, apis := range [][]string{{"yaml", ""}, {"", "yaml"}, {"yaml", "yaml"}} {
+				emit(c06Case{Threads: [][]string{{a[0]}, {a[1]}}, Bound: 2, APIs: apis})
+			}
+		}
+		for _, k := range []string{"update", "create", "match"} {
+			emit(c06Case{Threads: [][]string{{"update-grow"}, {k}}, Bound: 2, APIs: []string{"yaml", ""}})
+			emit(c06Case{Threads: [][]string{{k}, {"update-shrink"}}, Bound: 2, APIs: []string{"", "yaml"}})
+			emit(c06Case{Threads: [][]string{{"update-grow"}, {k}}, Bound: 2, APIs: []string{"yaml", "yaml"}})
+		}
 		// the very first run: the shared file does not exist yet, every thread creates
 		for i, th := range [][][]string{{{"create"}, {"create"}}, {{"create", "create"}, {"create"}}, {{"create"}, {"create"}, {"create"}}, {{"create-big"}, {"create"}}} {
 			emit(c06Case{Threads: th, Bound: []int{3, 2, 1, 2}[i], NoFile: true})
